@@ -145,7 +145,9 @@ def create_tables(models_by_app, alias='default'):
 
 def run_sql(sql, alias='default'):
     from django_evolution.utils.sql import SQLExecutor
-    with SQLExecutor(alias) as ex:
+    # like EvolveAppTask.execute_tasks: evolution SQL runs with constraint checks deferred to the end of
+    # the block (a table rebuild drops and re-creates a table that other tables refer to)
+    with SQLExecutor(alias, check_constraints=False) as ex:
         ex.run_sql(sql, execute=True)
 
 
